@@ -1,7 +1,10 @@
 SYM = 'bounded symbolic execution of the real code (CrossHair path exploration, z3 decides every branch)'
 NOTE = ('Trusted: CrossHair 0.0.110 + the model corrections in vf/plugin.py, z3 5.1.0, the reference '
         'oracles in vf/ref_*.py. Each counterexample is replayed on the plain interpreter before it is '
-        'reported. Bounds are listed in the evidence file (coverage.bounds, assumptions).')
+        'reported. Bounds are listed in the evidence file (coverage.bounds, assumptions). Exit 0: held on everything '
+        'explored (inconclusive obligations are listed); exit 1 + VIOLATION line: a replayed counterexample; exit 3 + '
+        'HARNESS-ERROR line: no verdict (a counterexample that does not replay, or a tree without the private names the '
+        'harness drives, vf/internals.json).')
 CHECKS = {
     'C01': {'text': 'For each enumerated shape (signature x container lengths x offset x byte order x struct '
                     'form) the solver shows, for ALL leaf values (full integer ranges, all code points), that '
